@@ -234,14 +234,19 @@ def profile_with_ties_to_strict_profile(
       while k < m - r and profile[i, ranked_profile[i, r + k]] == profile[i, ranked_profile[i, r]]:
         k += 1
       num_tied = k
+      if np.isnan(profile[i, ranked_profile[i, r]]):
+        # Unranked alternatives are sorted last and stay unranked.
+        break
+      tied_indices = np.array([ranked_profile[i, r + j] for j in range(num_tied)])
       if num_tied > 1:
         # There is a tie.
-        tied_indices = np.array([ranked_profile[i, r + j] for j in range(num_tied)])
         if tie_breaker == "random":
           np.random.shuffle(tied_indices)
         if tie_breaker == "first":
           tied_indices = np.sort(tied_indices)
-        strict_profile[i, tied_indices] = np.arange(r + 1, r + num_tied + 1)
+      # Number every group from its position: with dense tied ranks (1, 1, 2) the alternatives after a tie
+      # have to move down as well, otherwise the result is not strict.
+      strict_profile[i, tied_indices] = np.arange(r + 1, r + num_tied + 1)
 
       r += num_tied
   if isinstance(profile, CompleteProfile):
